@@ -579,6 +579,13 @@ class Stage:
         >>> ocp.set_initial(u, sin(ocp.t))
         """
         assert "opti" not in str(var)
+        # The guess of a free horizon is the one carried by its FreeTime declaration:
+        # it must be in place before time-dependent guesses are evaluated on the time grid
+        if isinstance(var, MX) and var.is_symbolic():
+            if isinstance(self._T, FreeTime) and is_equal(var, self.T):
+                return self.set_T(FreeTime(value))
+            if isinstance(self._t0, FreeTime) and is_equal(var, self.t0):
+                return self.set_t0(FreeTime(value))
         def action(var, value):
             if var not in self._meta and var not in self._placeholders:
                 raise Exception("You attempted to set the initial value of an unknown symbol: " + str(var))
